@@ -1370,13 +1370,17 @@ impl DtlsInner {
             if let Some(keys) = &ctx.session_keys {
                 let crypto = create_session_crypto(keys.clone())?;
                 let state = DtlsState::Connected(Arc::new(crypto), ctx.srtp_profile);
-                *self.state.lock() = state.clone();
-                #[cfg(rustrtc_verif)]
-                crate::verif_hooks::preempt_point("dtls.connected.published").await;
+                // The record layer's write epoch / sequence number must be in place BEFORE the
+                // state that lets send() through is published: a send() from another thread
+                // between the two would seal application data under the old epoch, or reuse the
+                // sequence numbers (nonces) of the records that follow.
                 self.write_epoch.store(ctx.epoch, Ordering::SeqCst);
                 #[cfg(rustrtc_verif)]
                 crate::verif_hooks::preempt_point("dtls.connected.epoch_stored").await;
                 self.write_seq.store(ctx.sequence_number, Ordering::SeqCst);
+                #[cfg(rustrtc_verif)]
+                crate::verif_hooks::preempt_point("dtls.connected.seq_stored").await;
+                *self.state.lock() = state.clone();
                 let _ = self.state_tx.send(state);
                 debug!("DTLS handshake complete (server role) (remote={})", self.conn.remote_addr.read());
                 // Clear ephemeral secret as handshake is complete
@@ -1407,13 +1411,15 @@ impl DtlsInner {
                         let crypto = create_session_crypto(keys.clone())?;
 
                         let state = DtlsState::Connected(Arc::new(crypto), ctx.srtp_profile);
-                        *self.state.lock() = state.clone();
-                        #[cfg(rustrtc_verif)]
-                        crate::verif_hooks::preempt_point("dtls.connected.published").await;
+                        // write epoch / sequence number first, then the state that lets send()
+                        // through (see the server-role branch above)
                         self.write_epoch.store(ctx.epoch, Ordering::SeqCst);
                         #[cfg(rustrtc_verif)]
                         crate::verif_hooks::preempt_point("dtls.connected.epoch_stored").await;
                         self.write_seq.store(ctx.sequence_number, Ordering::SeqCst);
+                        #[cfg(rustrtc_verif)]
+                        crate::verif_hooks::preempt_point("dtls.connected.seq_stored").await;
+                        *self.state.lock() = state.clone();
                         let _ = self.state_tx.send(state);
                         debug!("DTLS handshake complete (client role) (remote={})", self.conn.remote_addr.read());
                         ctx.local_secret = None;
